@@ -365,7 +365,7 @@ def aggVal (f : AggF) (vals : List Value) : Option Value :=
   match f with
   | .count => some (.i64 vals.length)
   | .countDistinct => some (.i64 (dedupV vals).length)
-  | .sum => some (.i64 (vals.foldl (fun s v => satAdd s ((Value.asInt? v).getD 0)) 0))
+  | .sum => some (.i64 (satAdd (vals.foldl (fun s v => s + (Value.asInt? v).getD 0) 0) 0))   -- exact total, clamped once (i128 accumulation)
   | .min => minV vals
   | .max => maxV vals
   | .avg => none
